@@ -214,7 +214,7 @@ class P2WSHSortedMulti:
             key_records_to_save.append(
                 {
                     "path": path,
-                    "xfp": xfp_hex,
+                    "xfp": xfp_hex.lower(),  # Bitcoin Core prints (and parse() expects) lower case
                     "xpub_parent": xpub_to_use,
                     "account_index": account_index,
                 }
